@@ -220,6 +220,8 @@ def value_items(v):
         return value_items(v[1])
     if isinstance(v, tuple) and v[0] == "model" and v[1] == "vec!":
         return tuple(v[2][3])
+    if isinstance(v, tuple) and v[0] == "model" and v[1] == "to_vec":
+        return (("splice", v[2]),)
     return None
 
 
@@ -340,8 +342,40 @@ def m_extend_from_slice(it, S, t, callee, args):
     a = it.target(args[0])
     la = get_len(it, S, a)
     lb = it.len_of_ref(S, args[1], it.op_type(t["args"][1]))
+    items = items_of(S, a)
+    if items is None:
+        items = value_items(S.read(a))
+    src = args[1] if is_const(args[1]) else it.deref_value(S, args[1], 1, it.op_type(t["args"][1]))
     set_len(it, S, a, plus(la, lb))
+    set_items(S, a, None if items is None else items + (("splice", src),))
     return K("()", "zst")
+
+
+@model("alloc::slice::<impl [T]>::concat")
+def m_concat(it, S, t, callee, args):
+    # [a, b, ..].concat(): the elements' contents one after the other (std docs)
+    outer = args[0] if is_const(args[0]) else it.deref_value(S, args[0], 1, it.op_type(t["args"][0]))
+    while isinstance(outer, tuple) and outer[0] == "upd":
+        outer = outer[1]
+    if isinstance(outer, tuple) and outer[0] == "model" and outer[1] == "view" and const_val(outer[3]) == 0:
+        outer = outer[2]
+        while isinstance(outer, tuple) and outer[0] == "upd":
+            outer = outer[1]
+    if not (isinstance(outer, tuple) and outer[0] == "agg" and outer[1] == "array"):
+        return None
+    items, total = [], U(0)
+    for e in outer[3]:
+        if is_const(e):
+            v, ln = e, it.len_of_ref(S, e, {"k": "ref", "to": {"k": "slice"}})
+        elif isinstance(e, tuple) and e[0] == "ref":
+            v = it.deref_value(S, e, 1)
+            ln = it.len_of_ref(S, e, {"k": "ref", "to": {"k": "slice"}})
+        else:
+            return None
+        items.append(("splice", v))
+        total = plus(total, ln)
+    R = fresh_container(it, t, callee, total)
+    return ("upd", R[1], R[2] + (((("items",),), ("model", "seq", tuple(items))),))
 
 
 @model("<alloc::vec::Vec<T, A> as core::iter::traits::collect::Extend<&'a T>>::extend",
@@ -1272,6 +1306,11 @@ def m_eq_generic(it, S, t, callee, args):
                 it.cond[(R, 1 - eq_val)] = [("dom", d_other, Dom(1, 1))]
             S.set_dom(R, Dom(0, 1))
             return R
+    if k in ("array", "slice") or (k == "adt" and inner.get("adt") in ("alloc::vec::Vec", "bytes::bytes::Bytes")):
+        # equality of two sequences: a symbolic truth value over the two values compared
+        e = ("seqeq", a, b)
+        set_ty(e, "bool")
+        return ("not", e) if neg else e
     if k == "str" or (k == "adt" and inner.get("adt") == "alloc::string::String"):
         sa = args[0] if not (isinstance(args[0], tuple) and args[0][0] == "ref" and it.op_type(t["args"][0])["to"].get("k") == "ref") else it.deref_value(S, args[0], 1)
         sb = args[1] if not (isinstance(args[1], tuple) and args[1][0] == "ref" and it.op_type(t["args"][1])["to"].get("k") == "ref") else it.deref_value(S, args[1], 1)
@@ -1284,7 +1323,9 @@ for _n in ("core::cmp::PartialEq::ne", "core::cmp::PartialEq::eq", "core::cmp::i
            "core::cmp::impls::<impl core::cmp::PartialEq<&B> for &A>::ne", "core::str::traits::<impl core::cmp::PartialEq for str>::eq",
            "core::str::traits::<impl core::cmp::PartialEq for str>::ne", "<alloc::string::String as core::cmp::PartialEq<str>>::eq",
            "<alloc::string::String as core::cmp::PartialEq<&str>>::eq", "<alloc::string::String as core::cmp::PartialEq>::eq",
-           "<core::option::Option<T> as core::cmp::PartialEq>::eq", "<core::option::Option<T> as core::cmp::PartialEq>::ne"):
+           "<core::option::Option<T> as core::cmp::PartialEq>::eq", "<core::option::Option<T> as core::cmp::PartialEq>::ne",
+           "core::array::equality::<impl core::cmp::PartialEq<[U; N]> for [T; N]>::eq", "core::array::equality::<impl core::cmp::PartialEq<[U; N]> for [T; N]>::ne",
+           "core::slice::cmp::<impl core::cmp::PartialEq<[U]> for [T]>::eq", "core::slice::cmp::<impl core::cmp::PartialEq<[U]> for [T]>::ne"):
     MODELS[_n] = m_eq_generic
 
 
